@@ -480,7 +480,11 @@ func compactModel(m eng.Model) string {
 	for _, k := range ks {
 		v := m[k]
 		if s, ok := v.(string); ok {
-			if len(s) > 24 {
+			s = strings.TrimRight(s, " ")
+			if s == " plain" || strings.HasPrefix(k, "env_") && s == "" {
+				continue // uninformative
+			}
+			if len(s) > 40 {
 				v = fmt.Sprintf("<%d bytes>", len(s))
 			} else {
 				v = strconv.Quote(s)
